@@ -104,7 +104,11 @@ class MMD(BaseDistanceBased):
         self.X_queue.clear()
 
     def _update(self, value: Union[int, float]) -> Optional[DistanceResult]:
-        self.X_queue.enqueue(value=value)
+        # The window keeps its own copy of an array value: a caller that reuses one
+        # buffer for successive values must not overwrite the values already seen
+        self.X_queue.enqueue(
+            value=value.copy() if isinstance(value, np.ndarray) else value
+        )
 
         if self.num_instances < self.window_size:
             return None
